@@ -7,9 +7,9 @@ package zsim
 // the reconnect policy of server.followSource re-implemented here (stub).
 
 import (
-	"hash/fnv"
 	"context"
 	"fmt"
+	"hash/fnv"
 	"path/filepath"
 	"sync"
 	"time"
@@ -21,6 +21,8 @@ import (
 	"github.com/getlantern/zenodb/core"
 	"github.com/getlantern/zenodb/planner"
 	"github.com/getlantern/zenodb/rpc"
+	"github.com/getlantern/zenodb/server"
+	"github.com/getlantern/zenodb/simhook"
 )
 
 type Cluster struct {
@@ -32,10 +34,14 @@ type Cluster struct {
 	// CheckCodec: assert the round-trip law on every message (C20)
 	CheckCodec bool
 	mu         sync.Mutex
-	links     map[string]*ReplLink // "leaderID>follower name"
-	inflight  int                  // deliveries currently crossing a link
-	qfaults   map[string]*QFault   // follower name -> fault for its next query
-	qfired    map[string]bool      // follower name -> an injected query fault actually fired
+	links      map[string]*ReplLink // "leaderID>follower name"
+	inflight   int                  // deliveries currently crossing a link
+	qfaults    map[string]*QFault   // follower name -> fault for its next query
+	qfired     map[string]bool      // follower name -> an injected query fault actually fired
+	// Real: every node is a whole server.Server (world CR): the real follow and
+	// query-feed loops, RPC client and server, over the SimNet
+	Real bool
+	net  *SimNet
 }
 
 // CNode is a logical cluster node (it survives restarts of its DB instance).
@@ -51,6 +57,7 @@ type CNode struct {
 	// makeFollows / insert callback of the current follower instance
 	streams []*followerStream
 	queryFn planner.QueryClusterFN
+	srv     *server.Server
 }
 
 type followerStream struct {
@@ -100,6 +107,12 @@ func leaderOpts(c *Cfg, id int) *zenodb.DBOpts {
 
 func NewCluster(e *Env, p *Plan) (*Cluster, error) {
 	c := &Cluster{e: e, p: p, Codec: p.Cfg.Codec, links: map[string]*ReplLink{}, qfaults: map[string]*QFault{}, qfired: map[string]bool{}}
+	if p.Cfg.Extra["real"] > 0 {
+		c.Real = true
+		c.net = NewSimNet(func(kind string) { e.Count(kind) })
+		simhook.ServerDialerFn = c.net.DialerFor
+		e.Count("world.real-servers")
+	}
 	nl := p.Cfg.Leaders
 	if nl <= 0 {
 		nl = 1
@@ -131,6 +144,9 @@ func NewCluster(e *Env, p *Plan) (*Cluster, error) {
 func (c *Cluster) startNode(cn *CNode, dir string) error {
 	cn.gen++
 	gen := cn.gen
+	if c.Real {
+		return c.startRealNode(cn, dir)
+	}
 	var opts *zenodb.DBOpts
 	if cn.Leader {
 		opts = leaderOpts(&c.p.Cfg, cn.ID)
@@ -336,6 +352,11 @@ func (c *Cluster) link(leader, follower string) *ReplLink {
 // Cut breaks the link at the next message boundary and refuses reconnects
 // until healed.
 func (c *Cluster) Cut(leader, follower string) {
+	if c.Real {
+		c.net.Cut(leader, follower)
+		c.e.Count("fault.link.cut")
+		return
+	}
 	if l := c.link(leader, follower); l != nil {
 		l.mu.Lock()
 		l.cut = true
@@ -346,6 +367,11 @@ func (c *Cluster) Cut(leader, follower string) {
 }
 
 func (c *Cluster) Heal(leader, follower string) {
+	if c.Real {
+		c.net.Heal(leader, follower)
+		c.e.Count("fault.link.heal")
+		return
+	}
 	if l := c.link(leader, follower); l != nil {
 		l.mu.Lock()
 		l.cut = false
@@ -355,6 +381,10 @@ func (c *Cluster) Heal(leader, follower string) {
 }
 
 func (c *Cluster) Stall(leader, follower string, d time.Duration) {
+	if c.Real {
+		c.net.Stall(leader, follower, d)
+		return
+	}
 	if l := c.link(leader, follower); l != nil {
 		l.mu.Lock()
 		l.stallFor = d
@@ -363,6 +393,10 @@ func (c *Cluster) Stall(leader, follower string, d time.Duration) {
 }
 
 func (c *Cluster) SetDelay(leader, follower string, d time.Duration) {
+	if c.Real {
+		c.net.SetDelay(leader, follower, d)
+		return
+	}
 	if l := c.link(leader, follower); l != nil {
 		l.mu.Lock()
 		l.delay = d
@@ -594,6 +628,7 @@ func (c *Cluster) StopNode(cn *CNode) {
 	cn.Up = false
 	cn.gen++
 	cn.N.Close()
+	c.isolate(cn)
 	c.e.Count("fault.node.stop")
 }
 
@@ -606,6 +641,7 @@ func (c *Cluster) KillNode(cn *CNode) {
 	cn.Up = false
 	cn.gen++
 	cn.N.Dead = true
+	c.isolate(cn)
 	cn.N.Abandon()
 	c.e.Count("fault.node.kill")
 }
@@ -629,7 +665,7 @@ func (c *Cluster) StartNode(cn *CNode, empty bool) error {
 	if err := c.startNode(cn, dir); err != nil {
 		return err
 	}
-	if cn.Leader {
+	if cn.Leader && !c.Real {
 		// followers register their query handlers with the new instance (the
 		// feed loop of a real follower reconnects)
 		for _, f := range c.Followers {
@@ -649,6 +685,7 @@ func (c *Cluster) ReapCrashed() []*CNode {
 			cn.Up = false
 			cn.gen++
 			cn.N.Dead = true
+			c.isolate(cn)
 			cn.N.Abandon()
 			c.e.Count("fault.node.crashpoint")
 			out = append(out, cn)
@@ -690,6 +727,13 @@ func (c *Cluster) CloseAll() {
 
 // Inflight reports how many deliveries are crossing links right now.
 func (c *Cluster) Inflight() int {
+	if c.Real {
+		// connections that carried data within the last second count as busy
+		if c.net.QuietFor() < time.Second {
+			return 1
+		}
+		return 0
+	}
 	c.mu.Lock()
 	defer c.mu.Unlock()
 	return c.inflight
